@@ -210,6 +210,10 @@ func (t *Dense) TensorMul(other Tensor, axesA, axesB []int) (retVal *Dense, err 
 	os := other.Shape()
 	od := len(os)
 
+	// the axes belong to the caller: they are normalised and extended below, so work on private copies
+	axesA = append([]int(nil), axesA...)
+	axesB = append([]int(nil), axesB...)
+
 	na := len(axesA)
 	nb := len(axesB)
 	sameLength := na == nb
@@ -271,7 +275,7 @@ func (t *Dense) TensorMul(other Tensor, axesA, axesB []int) (retVal *Dense, err 
 	}
 
 	// work on other now
-	notins = notins[:0]
+	notins = nil // not notins[:0]: newAxesA above may share the old backing array
 	for i := 0; i < od; i++ {
 		notin := true
 		for _, a := range axesB {
